@@ -29,6 +29,7 @@ RULE = (
     "blocks supplying different values of one type with >=1 context switch between them; distinct = distinct "
     "program+schedule"
 )
+RULE += "; one State instance may be shared by several blocks of several tasks (a constant), incl. the template 'same constant on top of different enclosing blocks while a task of the first combination is alive'"
 LEVEL_TEXT = (
     "The harness owns the schedule: every step of every task is released explicitly, so each interleaving is a value. "
     "Each task's view (state per family type, by identity) must equal its own reference stack (snapshot of the creator "
@@ -83,6 +84,22 @@ def execute(case, sched: Sched):
     sent = P.sentinels()
     labels = {id(s): ("sentinel", n) for n, s in sent.items()}
     keep = []
+    shared: dict = {}
+
+    def make(sv, lbl):
+        """a fresh State instance - or, for SVs marked "share", ONE instance per (type, value, share) used by every block
+        of every task that names it (a module-level constant handed to ctx.updated / ctx.scope again and again)"""
+        if sv.get("share") is not None:
+            key = (sv["type"], sv["v"], sv["share"])
+            if key in shared:
+                obs["classes"].add("one-state-instance-in-several-blocks")
+                return shared[key], labels[id(shared[key])]
+        obj = P.make_state(sv)
+        keep.append(obj)
+        labels[id(obj)] = lbl
+        if sv.get("share") is not None:
+            shared[key] = obj
+        return obj, lbl
 
     fp_mode = case.get("fp", "default")
 
@@ -150,10 +167,7 @@ def execute(case, sched: Sched):
                     # the scope OBJECT is built now (here: under the task's current blocks) and entered by a later step
                     insts, frame = [], {}
                     for i, sv in enumerate(step["state"]):
-                        obj = P.make_state(sv)
-                        keep.append(obj)
-                        lbl = (tid, me["pos"], i)
-                        labels[id(obj)] = lbl
+                        obj, lbl = make(sv, (tid, me["pos"], i))
                         insts.append(obj)
                         frame.setdefault(sv["type"], []).append(lbl)
                     prepared.append((step["kind"], ctx.scope("p", *insts), frame))
@@ -170,10 +184,7 @@ def execute(case, sched: Sched):
                     insts = []
                     frame = {}
                     for i, sv in enumerate(step["state"]):
-                        obj = P.make_state(sv)
-                        keep.append(obj)
-                        lbl = (tid, me["pos"], i)
-                        labels[id(obj)] = lbl
+                        obj, lbl = make(sv, (tid, me["pos"], i))
                         insts.append(obj)
                         frame.setdefault(sv["type"], []).append(lbl)
                     if step["kind"] == "updated":
@@ -353,7 +364,35 @@ def run_case(case) -> Outcome:
 
 
 def strategy(tier):
-    sv = st.builds(lambda n, v: {"type": n, "v": v}, st.sampled_from(["A", "A", "B", "A2", "G[int]", "R"]), st.integers(1, 9))
+    fresh = st.builds(lambda n, v: {"type": n, "v": v}, st.sampled_from(["A", "A", "B", "A2", "G[int]", "R"]), st.integers(1, 9))
+    const = st.builds(lambda n, v: {"type": n, "v": v, "share": 0}, st.sampled_from(["A", "B", "A2"]), st.integers(1, 2))
+    sv = st.one_of(fresh, fresh, fresh, const)
+
+    @st.composite
+    def same_constant_under_different_parents(draw):
+        """one State instance S applied on top of DIFFERENT enclosing blocks one after the other, while a task started
+        under the first combination is still alive: the second combination is (second parent + S), nothing of the first"""
+        a, b = draw(st.sampled_from([("A", "A"), ("A", "B"), ("B", "A"), ("A2", "A")]))
+        s_t = draw(st.sampled_from(["B", "A2", "G[int]"])) if a != "B" and b != "B" else "A2"
+        S = {"type": s_t, "v": 5, "share": 1}
+        kinds = st.sampled_from(["updated", "updated", "sync", "async"])
+        rounds = draw(st.integers(2, 4))
+        root = []
+        scripts = [root]
+        for r in range(rounds):
+            outer = {"type": a if r % 2 == 0 else b, "v": 1 + r}
+            root.append({"s": "enter", "kind": draw(kinds), "state": [outer]})
+            root.append({"s": "enter", "kind": "updated" if draw(st.booleans()) else draw(kinds), "state": [S]})
+            if r < rounds - 1 and len(scripts) < 4:
+                child = len(scripts)
+                scripts.append([{"s": "probe_nodefault", "types": [a]}] * draw(st.integers(1, 2)))
+                root.append({"s": "spawn", "via": "asyncio", "task": child})
+            else:
+                root.append({"s": "probe_nodefault", "types": [a, b]})
+            root.append({"s": "exit"})
+            root.append({"s": "exit"})
+        # the root runs ahead: the children take their steps at the very end (they only have to stay alive)
+        return {"tasks": scripts, "choices": [0] * 40, "exhaustive": False, "fp": draw(st.sampled_from(["default", "both"])), "gc": draw(st.booleans())}
 
     @st.composite
     def cases(draw):
@@ -400,7 +439,7 @@ def strategy(tier):
         gc_ = (not exhaustive) and draw(st.integers(0, 7)) == 0
         return {"tasks": scripts, "choices": choices, "exhaustive": exhaustive, "fp": fp, "gc": gc_}
 
-    return cases()
+    return st.one_of(cases(), cases(), cases(), cases(), same_constant_under_different_parents())
 
 
 def budget(tier):
